@@ -82,6 +82,10 @@ class Scenario:
             code, script = VOCAB[name]
             if name == "D":
                 self.defs[session] = True
+        if op == "load-file":
+            # a loaded file has its own namespace and the session stays in it: what was defined before is not
+            # visible to later requests (a later definition is)
+            self.defs[session] = False
         return self.add(delay, op, session, code, script, prefix="e" if op == "eval" else "f")
 
 
